@@ -11,6 +11,7 @@ import (
 	"strings"
 	"testing"
 
+	"github.com/openconfig/gnmi/proto/gnmi"
 	sdcpb "github.com/sdcio/sdc-protos/sdcpb"
 	"google.golang.org/protobuf/proto"
 	"google.golang.org/protobuf/types/known/anypb"
@@ -204,6 +205,63 @@ func TestVerifReplayValues(t *testing.T) {
 		}
 	}
 	fmt.Printf("REPLAY-CASES fn=%s n=%d\n", fnG, g)
+	// FromGNMITypedValue: what a gNMI device reports keeps its datum
+	fnF := "utils.FromGNMITypedValue"
+	f := 0
+	for _, c := range []struct {
+		name string
+		in   *gnmi.TypedValue
+		want string
+	}{
+		{"decimal 1.5", &gnmi.TypedValue{Value: &gnmi.TypedValue_DecimalVal{DecimalVal: &gnmi.Decimal64{Digits: 15, Precision: 1}}}, "1.5"},
+		{"decimal -0.25", &gnmi.TypedValue{Value: &gnmi.TypedValue_DecimalVal{DecimalVal: &gnmi.Decimal64{Digits: -25, Precision: 2}}}, "-0.25"},
+		{"double 2.5", &gnmi.TypedValue{Value: &gnmi.TypedValue_DoubleVal{DoubleVal: 2.5}}, "double:2.5"},
+		{"float 2.5", &gnmi.TypedValue{Value: &gnmi.TypedValue_FloatVal{FloatVal: 2.5}}, "double:2.5"},
+		{"uint 18446744073709551615", &gnmi.TypedValue{Value: &gnmi.TypedValue_UintVal{UintVal: math.MaxUint64}}, "18446744073709551615"},
+		{"int -9223372036854775808", &gnmi.TypedValue{Value: &gnmi.TypedValue_IntVal{IntVal: math.MinInt64}}, "-9223372036854775808"},
+		{"string", &gnmi.TypedValue{Value: &gnmi.TypedValue_StringVal{StringVal: "x"}}, "x"},
+		{"bool", &gnmi.TypedValue{Value: &gnmi.TypedValue_BoolVal{BoolVal: true}}, "true"},
+	} {
+		f++
+		got := FromGNMITypedValue(c.in)
+		var have string
+		switch {
+		case got == nil:
+			have = "<nil>"
+		case got.GetValue() == nil:
+			have = "<no value>"
+		default:
+			if _, isD := got.GetValue().(*sdcpb.TypedValue_DoubleVal); isD {
+				have = "double:" + strconv.FormatFloat(got.GetDoubleVal(), 'g', -1, 64)
+			} else {
+				have = TypedValueToString(got)
+			}
+		}
+		if have != c.want {
+			fmt.Printf("REPLAY-FAIL fn=%s clause=datum_is_kept input=gNMI %s why=converted to %s\n", fnF, c.name, have)
+		}
+	}
+	fmt.Printf("REPLAY-CASES fn=%s n=%d\n", fnF, f)
+	// ConvertTypedValueToYANGType: the whole range of the 64-bit integer types
+	fnY := "utils.ConvertTypedValueToYANGType"
+	y := 0
+	for _, c := range []struct {
+		typ  string
+		in   *sdcpb.TypedValue
+		want string
+	}{
+		{"uint64", &sdcpb.TypedValue{Value: &sdcpb.TypedValue_UintVal{UintVal: math.MaxUint64}}, "18446744073709551615"},
+		{"uint64", &sdcpb.TypedValue{Value: &sdcpb.TypedValue_StringVal{StringVal: "9223372036854775808"}}, "9223372036854775808"},
+		{"int64", &sdcpb.TypedValue{Value: &sdcpb.TypedValue_IntVal{IntVal: math.MinInt64}}, "-9223372036854775808"},
+		{"uint8", &sdcpb.TypedValue{Value: &sdcpb.TypedValue_StringVal{StringVal: "7"}}, "7"},
+	} {
+		y++
+		got, err := ConvertTypedValueToYANGType(&sdcpb.SchemaElem{Schema: &sdcpb.SchemaElem_Field{Field: &sdcpb.LeafSchema{Name: "l", Type: &sdcpb.SchemaLeafType{Type: c.typ}}}}, c.in)
+		if err != nil || TypedValueToString(got) != c.want {
+			fmt.Printf("REPLAY-FAIL fn=%s clause=datum_is_kept input=%s leaf, value %s why=converted to %v (err %v)\n", fnY, c.typ, TypedValueToString(c.in), got, err)
+		}
+	}
+	fmt.Printf("REPLAY-CASES fn=%s n=%d\n", fnY, y)
 }
 
 func vrDecimalInbound() {
